@@ -199,6 +199,12 @@ theorem finding_flatten_value_upper :
 theorem finding_flatten_outer_ignored :
     flattenImpl (.json (.arr .nil)) = .ok [] ∧ flattenOuterSpec (.json (.arr .nil)) = .ok [.null] := ⟨rfl, rfl⟩
 
+/-- C11/flatten-native-string-list — FLATTEN(ARRAY_CONSTRUCT('a','b')) / FLATTEN(['a','b']) is a ConversionException;
+    number lists work -/
+theorem finding_flatten_native_string_list :
+    flattenNativeListImpl [.str "a".toList] = .error .conv ∧ flattenNativeListImpl [.num 1, .num 2] = .ok [.json (.num 1), .json (.num 2)] :=
+  ⟨rfl, rfl⟩
+
 /-! ### Findings on the pinned tree (each is a `known:` entry; the envelope excludes exactly these) -/
 
 /-- C11/array-size-empty — ARRAY_SIZE of an empty array is NULL, not 0 (the CASE trick) -/
